@@ -10,6 +10,7 @@ R6 the offset scan behind len() restores the C file position on every exit (try/
 from __future__ import annotations
 
 import ast
+import re
 
 from ..core import AnalysisError
 from ..cfg import CFG
@@ -26,7 +27,7 @@ EXPLANATION = (
 NOT_DECIDED = ["linearizability of arbitrary operation histories (run-time)", "byte-offset arithmetic inside xdr_seek.c / dcdplugin.c",
                "that tell() of DCD (fh.setsread maintained in C) matches the frames returned"]
 ASSUMPTIONS = ["read_next_timestep / read_xtc / read_trr advance the C file pointer by exactly one frame on success"]
-FLOORS = {"C18-R1": 24, "C18-R2": 2, "C18-R3": 6, "C18-R4": 5, "C18-R5": 10, "C18-R6": 5}
+FLOORS = {"C18-R1": 24, "C18-R2": 3, "C18-R3": 6, "C18-R4": 5, "C18-R5": 10, "C18-R6": 5}
 
 SEEKERS = ["h5", "nc", "xtc", "trr", "dcd", "dtr", "mdcrd", "xyz", "lammpstrj", "lh5"]
 POS_NAMES = ("self._frame_index", "self.frame_counter", "current_pos", "self.tell()")
@@ -115,7 +116,10 @@ def check(ctx):
     ctx.rule("C18-R4", "seek()/len() re-open the file with the opener the constructor used and reset every counter the constructor initialises")
     ctx.rule("C18-R5", "the position field is assigned in the constructor and is not class-level or module-level state")
     r6_len_is_read_total(ctx)
+    r7_reads_return_fresh_arrays(ctx)
+    r8_len_counts_every_line(ctx)
     ctx.rule("C18-R6", "the offset scan used by len() saves the C file position first and restores it in a finally block")
+    ctx.rule("C18-R7", "read() / _read() / read_as_traj() never return (a view of) an array-like field of the reader object")
 
     _r1(ctx)
     _r2(ctx)
@@ -212,7 +216,7 @@ def _r1(ctx):
 
 
 def _r2(ctx):
-    for key in ("h5", "nc"):
+    for key in ("h5", "nc", "lh5"):
         rel, cls = F.rel_cls(key)
         fn = F.method(ctx, key, "read")
         q = cls + ".read"
@@ -249,7 +253,15 @@ def _r2(ctx):
             ctx.undecided("C18-R2", fn, rel, q, "position update", "no update of self._frame_index in read()")
             continue
         if new is None:
-            ctx.undecided("C18-R2", site, rel, q, "position update", "cannot evaluate `%s` symbolically" % src(site))
+            v_ = site.value if isinstance(site, ast.AugAssign) else None
+            counts_returned = v_ is not None and ((isinstance(v_, ast.Call) and call_name(v_) == "len") or src(v_).endswith(".shape[0]"))
+            strided = sl is not None and len(sl.args) >= 3 and not (isinstance(sl.args[2], ast.Constant) and sl.args[2].value in (None, 1))
+            if counts_returned and strided:
+                ctx.violated("C18-R2", site, rel, q, "new position",
+                             "the position advances by `%s`, the number of frames *returned*, while the window read is `%s` with step `%s`: with stride s the next read starts inside the "
+                             "span already consumed (chunks overlap, tell() lags behind)" % (src(v_), src(sl.args[1])[:60], src(sl.args[2])))
+            else:
+                ctx.undecided("C18-R2", site, rel, q, "position update", "cannot evaluate `%s` symbolically" % src(site))
             continue
         bounded = False
         if len(new) == 1:
@@ -559,3 +571,104 @@ def r6_len_is_read_total(ctx):
         ok = got == [t]
         ctx.decide(ok, "C18-R6", rets[0], rel, cls + ".__len__", "len() returns `%s`, the bound read() clamps its window to" % t, "",
                    "len() returns %s while read() clamps its window to `%s`: the two can disagree (another variable, another backend), and tell() <= len() is no longer guaranteed" % (got, t))
+
+
+# ---------------------------------------------------------------------------------------------------
+def r7_reads_return_fresh_arrays(ctx):
+    """What read() hands out must not be (a view of) an array the reader object keeps: a scratch buffer that the next frame is parsed into, or a
+    cache that a later in-place unit conversion of the caller rescales.  For every reader class the return values of read / _read / read_as_traj
+    (through the class's own helper methods) are evaluated in the freshness lattice; an alias of `self.<field>` is reported when that field is
+    array-like state of the object (assigned from numpy calls, subscripts, list / dict literals) rather than the file handle."""
+    from ..flow import Fresh, Defs as _Defs, FRESH as _FRESH
+    n_ret = 0
+    for key in sorted(F.CLASSES):
+        rel, cls = F.rel_cls(key)
+        try:
+            mod = ctx.py.mod(rel)
+        except Exception:
+            continue
+        methods = mod.methods(cls)
+        if not methods:
+            continue
+        # array-like fields of the object
+        arrayish = set()
+        for mname, fn in methods.items():
+            for n in walk_no_nested(fn):
+                if isinstance(n, ast.Assign):
+                    for t in n.targets:
+                        for tt in (t.elts if isinstance(t, (ast.Tuple, ast.List)) else [t]):
+                            d = dotted(tt)
+                            if d and d.startswith("self.") and d.count(".") == 1:
+                                v = n.value
+                                cn = call_name(v) if isinstance(v, ast.Call) else None
+                                if (cn and cn.startswith(("np.", "numpy."))) or isinstance(v, (ast.Dict, ast.List, ast.Subscript, ast.ListComp)):
+                                    arrayish.add(d)
+        summaries = {}
+
+        class MFresh(Fresh):
+            def eval(self, e, node, _seen=None):
+                if isinstance(e, ast.Call):
+                    cn = call_name(e) or ""
+                    if cn.startswith("self.") and cn[5:] in summaries:
+                        return set(summaries[cn[5:]])
+                res = Fresh.eval(self, e, node, _seen)
+                if isinstance(e, ast.Name) and node is not None and len(_seen or ()) < 12:
+                    # a local list that is filled by append / extend carries what was put into it
+                    rd = self.defs.reaching(node, e.id)
+                    if rd and all(df.kind == "assign" and isinstance(df.value, (ast.List, ast.ListComp)) for df in rd):
+                        for n2 in self.cfg.nodes():
+                            for ex_ in self.cfg.own_exprs(n2):
+                                for c in ast.walk(ex_):
+                                    if isinstance(c, ast.Call) and isinstance(c.func, ast.Attribute) and c.func.attr in ("append", "extend") and dotted(c.func.value) == e.id and c.args:
+                                        res = res | self.eval(c.args[0], n2, (_seen or set()) | {("fill", id(c))}) if ("fill", id(c)) not in (_seen or set()) else res
+                return res
+
+        def ret_tags(fn):
+            cfg = CFG(fn)
+            defs = _Defs(cfg)
+            fr = MFresh(cfg, defs, roots=lambda d: d.startswith("self."))
+            tags = set()
+            for n in cfg.nodes():
+                st = cfg.stmt[n]
+                if cfg.kind[n] == "stmt" and isinstance(st, ast.Return) and st.value is not None:
+                    tags |= fr.eval(st.value, n)
+            return tags
+        for _ in range(3):
+            for mname, fn in methods.items():
+                if "." in mname:
+                    continue
+                try:
+                    summaries[mname] = ret_tags(fn)
+                except Exception:
+                    summaries[mname] = set()
+        for mname in ("read", "read_as_traj"):
+            fn = methods.get(mname)
+            if fn is None:
+                continue
+            n_ret += 1
+            al = sorted({t[1] for t in summaries.get(mname, ()) if isinstance(t, tuple) and t[0] == "ALIAS" and any(t[1] == a or t[1].startswith(a + ".") or t[1].startswith(a + "[") for a in arrayish)})
+            ctx.decide(not al, "C18-R7", fn, rel, "%s.%s" % (cls, mname), "arrays handed out are not (views of) arrays kept on the reader (%d array-like fields)" % len(arrayish), "",
+                       "%s() can return (a view of) `%s`, which the object keeps: the next read parses into it / an in-place conversion by the caller changes what the next read returns" % (mname, "`, `".join(al)))
+    if n_ret < 12:
+        raise AnalysisError("C18-R7: only %d read methods evaluated" % n_ret)
+
+
+def r8_len_counts_every_line(ctx):
+    """xyz: len() = (number of lines) // (n_atoms + 2), because read() consumes exactly n_atoms + 2 lines per frame whatever they contain
+    (the comment line may be empty).  The line count must therefore not be filtered by the content of the lines."""
+    rel, cls = F.rel_cls("xyz")
+    fn = F.method(ctx, "xyz", "__len__")
+    q = cls + ".__len__"
+    gens = [n for n in walk_no_nested(fn) if isinstance(n, (ast.GeneratorExp, ast.ListComp)) and any(dotted(g.iter) in ("fh", "f", "self._fh") or isinstance(g.iter, ast.Name) for g in n.generators)]
+    loops = [n for n in walk_no_nested(fn) if isinstance(n, ast.For)]
+    if not gens and not loops:
+        ctx.undecided("C18-R6", fn, rel, q, "line count", "the way len() counts the lines of the file is not recognised")
+        return
+    filt = [g for n in gens for g in n.generators if g.ifs]
+    cond = [c for lp in loops for c in ast.walk(lp) if isinstance(c, (ast.Continue, ast.If))]
+    ctx.decide(not filt and not cond, "C18-R6", (gens or loops)[0], rel, q, "len() counts every line of the file (a frame is n_atoms + 2 lines whatever they contain)", "",
+               "the line count skips lines by content (`%s`): a file whose comment lines are empty has fewer counted lines than frames x (n_atoms + 2), and len() under-reports while read() still finds every frame"
+               % (src(filt[0].ifs[0]) if filt else "conditional in the counting loop"))
+    div = [n for n in walk_no_nested(fn) if isinstance(n, ast.BinOp) and isinstance(n.op, ast.FloorDiv)]
+    ok = len(div) == 1 and re.sub(r"\s", "", src(div[0].right)) in ("(n_atoms+2)", "n_atoms+2", "(2+n_atoms)")
+    ctx.decide(ok, "C18-R6", div[0] if div else fn, rel, q, "frames = lines // (n_atoms + 2)", "", "the divisor of the line count is `%s`" % (src(div[0].right) if div else None))
